@@ -6,7 +6,11 @@
   behind the name's terminator) and fixes/C09-recurse0-index-text.patch (the text behind
   a `#N` of a sub-tree name is appended as it is; the unrepaired code wrote "N/" and
   swallowed a following '/', so `a#2b/` was reported as "a0/b/") and
-  fixes/C09-enabled-subport-runtime.patch (see `portIsEnabled`) applied.
+  fixes/C09-enabled-subport-runtime.patch (see `portIsEnabled`) and
+  fixes/C09-enabled-loc-copy-size.patch (the scratch copy of the enabling port's address is as
+  large as what it holds: `buffer_size` is not looked at anywhere) applied.  The library is
+  modelled as built with NDEBUG (the asserts on `buffer_size` and on `old_end - name_buffer`
+  are not part of the model).
 
   * A port table is a `List PortT` (C18's tree type: name, metadata block, `ports != NULL`,
     sub-table).  A `const Port*` handed to the walker callback is the *index path* of the
@@ -276,23 +280,35 @@ def walkTable (loop : Nat → Buf → M (List Call × Buf)) (base : List PortT) 
     pure (cs ++ cs2, b2)
   else pure (cs, b1)
 
+/-- `char buf[1024]`, `char locbuf[1024]` of `walk_ports_recurse` -/
+def SCRATCH : Nat := 1024
+
 /-- `walk_ports_recurse` up to the call of `walk_ports`: the child runtime object and the
-    "enabled by" test of the sub-tree port.  `none`: the sub-tree is skipped. -/
+    "enabled by" test of the sub-tree port.  `none`: the sub-tree is skipped.  With a runtime
+    object the address is copied into a scratch buffer of `SCRATCH` bytes and "pointer", a NUL,
+    "," and a NUL are appended: an address of more than 1014 characters runs off that buffer
+    (the asserts `old_end - name_buffer <= 255` and `1024 - strlen(buf) >= 8` are compiled out
+    under NDEBUG, which is what is modelled). -/
 def recurseGate (p : PortT) (i : Nat) (b : Buf) (base : List PortT) (path : List Nat)
     (rt : Option Obj) (oldEnd : Nat) : M (Option (Option Obj) × List Call) :=
   match rt with
   | none => .ok (some none, [])
   | some obj =>
-    match cstrAt b oldEnd with
+    match cstrAt b 0 with
     | .error e => .error e
-    | .ok relAddr =>
-      match obj.kid relAddr with
-      | none => .error .undef
-      | some none => .ok (none, [])                       -- r.obj == NULL
-      | some (some child) =>
-        match portIsEnabled (some (i, p)) b base path rt true (some child) with
-        | .error e => .error e
-        | .ok (en, cs) => .ok (if en then some (some child) else none, cs)
+    | .ok loc =>
+      -- char buf[1024] takes the address, "pointer", a NUL, "," and a NUL
+      if loc.length + 10 > SCRATCH then .error .oob else
+      match cstrAt b oldEnd with
+      | .error e => .error e
+      | .ok relAddr =>
+        match obj.kid relAddr with
+        | none => .error .undef
+        | some none => .ok (none, [])                       -- r.obj == NULL
+        | some (some child) =>
+          match portIsEnabled (some (i, p)) b base path rt true (some child) with
+          | .error e => .error e
+          | .ok (en, cs) => .ok (if en then some (some child) else none, cs)
 
 mutual
 /-- the loop `for(const Port &p: *base)` of `walk_ports`, from row `i` on -/
